@@ -118,8 +118,43 @@ func checkWriters(c *Ctx, id, what string, fields map[*types.Var]bool, nfields i
 		if !ok {
 			reason, ok = allowed[funcKey(rootFunc(f))]
 		}
+		// an unexported helper inherits the permission of its callers when every caller is a permitted writer
+		// (code moved out of a permitted function stays inside the accounting API)
+		if !ok {
+			if r, inherited := allCallersAllowed(c.P, rootFunc(f), allowed, 2); inherited {
+				reason, ok = "helper called only by permitted writers ("+r+")", true
+			}
+		}
 		c.Check(ok, id, "CALLERS", what+" written by "+k, instrPos(ws[f][0]), reason,
 			"a function outside the accounting API mutates "+what+": the incremental counters can drift from the pods (not in the reviewed writer table)")
 	}
 	c.Floor(id, "CALLERS writers of "+what, len(keys), 1)
+}
+
+// allCallersAllowed: fn is unexported and every non-test static call site of fn lies in a function that is in
+// the table (or is itself such a helper, to the given depth).
+func allCallersAllowed(p *Prog, fn *ssa.Function, allowed map[string]string, depth int) (string, bool) {
+	if fn == nil || depth == 0 || fn.Object() == nil || fn.Object().Exported() {
+		return "", false
+	}
+	n := 0
+	who := ""
+	for _, cs := range p.CallSites(fn) {
+		caller := rootFunc(cs.Parent())
+		if isTestdataOrMock(caller) {
+			continue
+		}
+		n++
+		k := funcKey(caller)
+		if _, ok := allowed[k]; ok {
+			who = k
+			continue
+		}
+		if w, ok := allCallersAllowed(p, caller, allowed, depth-1); ok {
+			who = w
+			continue
+		}
+		return "", false
+	}
+	return who, n > 0
 }
